@@ -5,9 +5,14 @@
     looked-at token, not the last consumed one), its parse-so-far span is the parse span at entry
     and ends no later than that token begins, and "nothing found" is reported exactly when nothing
     remains deliverable. That the named spans are canonical positions is C03 (PosOK).
-    Not covered by a theorem (correspondence + python oracle): seq/seq_count/end_of_text leaves,
-    bracket, boundary and count errors. *)
-From Tephra Require Import MetricsSpec CLexer LexerFacts Run Peg RunCore RunErrors.
+    Also proved: the [seq] leaf (after a matched prefix the error names the first token that does
+    not match, with its own span, and the parse-so-far span is the one at entry); the boundary error
+    of up_to quotes the end of the first abort token ahead and a parse span ending no later than the
+    offending token; the count error quotes the actual count and bounds (C11 [list_result]); the
+    spans of bracket errors are those of the tokens the reference matcher names (C10) and are
+    canonical (C03).
+    Not covered by a theorem (correspondence + python oracle): seq_count / end_of_text leaves. *)
+From Tephra Require Import MetricsSpec CLexer LexerFacts Run Peg RunCore RunErrors RunErrors2 LexerOps RunList.
 
 Theorem C13_one_names_first_token :
   forall m, 1 <= tabw m -> forall t, wf_text t ->
@@ -75,6 +80,27 @@ Theorem C13_entry_after_cursor :
   byte (send (c_parse_span lx)) <= byte (e_start x).
 Proof. exact parse_span_before. Qed.
 Print Assumptions C13_entry_after_cursor.
+
+Theorem C13_seq_names_first_mismatch :
+  forall m, 1 <= tabw m -> forall t, wf_text t ->
+  forall f ks lx ys c st pre x s k kr,
+  Inv m t lx ys -> kept (c_filter lx) ys = pre ++ x :: s -> matches ks pre = Some (k :: kr) ->
+  tok_eqb (e_tok x) (tk0 k) = false ->
+  run (S f) (GSeq ks) lx c st
+  = (RErr (EUnexpected (c_parse_span lx) (mkspan (e_start x) (e_end x)) (ExTok (tk0 k)) (Some (e_tok x))), st).
+Proof. exact seq_error. Qed.
+Print Assumptions C13_seq_names_first_mismatch.
+
+Theorem C13_boundary_error_quotes_abort_position :
+  forall m, 1 <= tabw m -> forall t, wf_text t ->
+  forall f a ab lx c st v lx1 ys1 st1 x s pre y rest,
+  run f a lx c st = (ROk v lx1, st1) -> Inv m t lx1 ys1 -> kept (c_filter lx1) ys1 = x :: s ->
+  in_kinds ab (e_tok x) = false ->
+  split_first (in_kinds ab) (x :: s) = Some (pre, y, rest) ->
+  exists es, run (S f) (GUpTo a ab) lx c st = (RErr (EBoundary es (e_end y)), st1)
+    /\ byte (send es) <= byte (e_start x).
+Proof. exact up_to_boundary_error. Qed.
+Print Assumptions C13_boundary_error_quotes_abort_position.
 
 (** concrete: both(one a, any[b]) on "a  c": the error span is that of "c" (bytes 3..4), the
     parse-so-far span is that of "a" (0..1) *)
